@@ -33,7 +33,7 @@ ODDWS = "Z\u00a0\tq\u200b"          # starts with Z (sorts first), contains nbsp
 NAMES_Q = ["ab", "a", ODDWS, "ä", HEX32]
 NAMES_T = ["ab", "a", "Z", "ä", " ", "..", HEX32, UUIDTXT, "urn:uuid:" + UUIDTXT, LONG, ODDWS, "nl\nx"]
 CHUNK = 4
-WALL_CAP = {"quick": 900, "thorough": 10800}
+WALL_CAP = {"quick": 1500, "thorough": 10800}
 
 # ------------------------------------------------------------------ container kinds
 # each kind: setup(f) -> None (creates the parent), parent(f) -> parent object, cont(parent) -> container,
